@@ -1,7 +1,11 @@
 package checks
 
 import (
+	"io"
+	"os"
+
 	"fmt"
+	"github.com/go-i2p/logger"
 	"reflect"
 	"strings"
 
@@ -36,7 +40,31 @@ func verifySucceeded(method string, out []reflect.Value) bool {
 	return false
 }
 
+// c20Debug: the process-wide logging level is part of the environment the property quantifies over
+// ("returns normally" must not depend on DEBUG_I2P). Both settings of the two-element menu {silent (default),
+// debug} are explored; output stays discarded. Set only between passes.
+var c20Debug bool
+
+func c20SetLogging(debug bool) {
+	c20Debug = debug
+	l := logger.GetGoI2PLogger()
+	l.Logger.SetOutput(io.Discard)
+	if debug {
+		l.SetLevel(logger.DebugLevel)
+	} else {
+		l.SetLevel(logger.PanicLevel)
+	}
+}
+
 func c20Call(r *core.Run, v any, origin string, cs core.Case) {
+	if c20Debug {
+		origin += " [debug logging enabled]"
+		args := map[string]string{"logging": "debug"}
+		for k, x := range cs.Args {
+			args[k] = x
+		}
+		cs = core.Case{Kind: cs.Kind, Args: args}
+	}
 	called, _ := adapt.CallMethods(v, false, mutatorNames, func(o adapt.CallOutcome) {
 		if o.Panicked {
 			r.Violate("C20|panic|"+o.Type+"."+o.Method+"|"+origin, fmt.Sprintf("(%s).%s() panics on %s: %s", o.Type, o.Method, origin, o.Msg), cs)
@@ -53,6 +81,28 @@ func c20Call(r *core.Run, v any, origin string, cs core.Case) {
 func runC20(r *core.Run) {
 	r.Rule = "(a) every exported named type found in /repo's current tree by the registry scan x {T{}, &T{}} x every exported argument-free method (promoted methods included) — exhaustive by reflection; (b) every base encoding within 1 (thorough 2) deviations x every cut point (quick: every field boundary and its neighbours; thorough: every offset) x every parser of the family: the value returned together with the error x every argument-free method. Oracle: no panic; Verify*/VerifySignature never reports success. states = (type or partial value) instances, transitions = method calls. non-trivial = distinct (type, origin) zero values and distinct (parser, base, cut) partial values whose methods were called"
 	r.Assume("nil pointers returned together with an error are not values of the structure type and are not called through; mutating methods (AddAddress, SetBytes, Zero) are excluded")
+	defer c20SetLogging(false)
+	for _, dbg := range []bool{false, true} {
+		c20SetLogging(dbg)
+		if dbg {
+			// logrus serialises every message behind one mutex: more than two workers only contend
+			was, had := os.LookupEnv("VERIF_WORKERS")
+			os.Setenv("VERIF_WORKERS", "2")
+			c20Pass(r)
+			if had {
+				os.Setenv("VERIF_WORKERS", was)
+			} else {
+				os.Unsetenv("VERIF_WORKERS")
+			}
+			continue
+		}
+		c20Pass(r)
+	}
+	r.Sample(map[string]any{"type": "router_info.RouterInfo", "receivers": []string{"RouterInfo{}", "&RouterInfo{}"}, "methods": "all exported argument-free", "logging": []string{"silent", "debug"}})
+	r.Sample(map[string]any{"partial": "lease_set2.ReadLeaseSet2 on a base cut at every offset / with every structure-aware mutation", "methods": "all exported argument-free incl. Verify"})
+}
+
+func c20Pass(r *core.Run) {
 	for _, t := range registry.Types {
 		ptr := reflect.ValueOf(t.Ptr) // *T pointing at zero
 		cs := core.Case{Kind: "zero", Args: map[string]string{"type": t.Name}}
@@ -68,25 +118,41 @@ func runC20(r *core.Run) {
 	if !r.Quick() {
 		o = enumOpts{BaseBound: 2, MutateBound: 2, AllCuts: true}
 	}
+	if c20Debug {
+		// debug-level logging formats every message: the pass is kept to the default bases and their cuts
+		// (thorough: bases within one deviation)
+		o = enumOpts{BaseBound: 0, MutateBound: 0, AllCuts: false}
+		if !r.Quick() {
+			o = enumOpts{BaseBound: 1, MutateBound: 1, AllCuts: false}
+		}
+	}
 	enumerateInputs(r, o, func(worker int, in *Input) {
-		if in.Class != "cut" && in.Class != "base" {
+		// every input of the bounded space that a parser REJECTS while still returning a value: truncations
+		// of every base, and every structure-aware mutation (unknown type codes, broken counts and lengths, ...)
+		// of the default bases (thorough: of every base within one deviation)
+		if in.Class != "cut" && in.Class != "base" && (c20Debug || len(in.Devs) > 0 && r.Quick() || len(in.Devs) > 1) {
 			return
 		}
 		for _, fam := range parserFamiliesFor(in.Family, in.Aux) {
 			for _, p := range adapt.ByFamily(fam) {
 				var res adapt.Parsed
+				r.Begin(worker, func() string { return p.Name + " (and the methods of the value it returns) input=" + core.Hex(in.Bytes) })
 				if pan, _ := core.Guard(func() { res = p.Fn(in.Bytes) }); pan {
+					r.End(worker)
 					continue
 				}
 				if res.OK || res.Val == nil {
+					r.End(worker)
 					continue
 				}
 				rv := reflect.ValueOf(res.Val)
 				if rv.Kind() == reflect.Ptr && rv.IsNil() {
+					r.End(worker)
 					continue // a nil pointer is not a (partial) value of the structure type
 				}
 				origin := "the value " + p.Name + " returns together with an error"
 				c20Call(r, res.Val, origin, in.Case(p.Name))
+				r.End(worker)
 				r.States.Add(1)
 				r.Traces.Add(1)
 				_ = rv
@@ -94,11 +160,11 @@ func runC20(r *core.Run) {
 			}
 		}
 	})
-	r.Sample(map[string]any{"type": "router_info.RouterInfo", "receivers": []string{"RouterInfo{}", "&RouterInfo{}"}, "methods": "all exported argument-free"})
-	r.Sample(map[string]any{"partial": "lease_set2.ReadLeaseSet2 on a base cut at every offset", "methods": "all exported argument-free incl. Verify"})
 }
 
 func replayC20(r *core.Run, c core.Case) {
+	c20SetLogging(c.Args["logging"] == "debug")
+	defer c20SetLogging(false)
 	switch c.Kind {
 	case "zero":
 		for _, t := range registry.Types {
